@@ -640,6 +640,21 @@ theorem maskFlag_ok {b : Body} {h : Bool} (s : List Nat) (k w w' : Bool) (hb : b
       subst hw'
       cases hv : b.varr <;> cases hvw : b.vwritable <;> simp_all
 
+theorem sharedMask_some {m : MaskD} {s : List Nat} {k w : Bool} (h : sharedMask m = some (s, k, w)) :
+    m = .array s k w ∧ s.isEmpty = false := by
+  cases m with
+  | array s' k' w' =>
+    simp only [sharedMask] at h
+    split at h
+    · cases h
+    · rename_i hne
+      simp only [Option.some.injEq, Prod.mk.injEq] at h
+      obtain ⟨rfl, rfl, rfl⟩ := h
+      exact ⟨rfl, by simpa using hne⟩
+  | scalar x => cases h
+  | npbool x => cases h
+  | other => cases h
+
 /-- `pickle.loads(pickle.dumps(obj))` (pickler.py:945-1100, repaired form of `__setstate__`), whatever the mask
     contents make `__getstate__` do to the mask representations -/
 theorem setstate_wf (o r : ObjDump) (c : Collapse) (dc : List (String × Collapse)) (ho : WF o = true)
@@ -652,7 +667,8 @@ theorem setstate_wf (o r : ObjDump) (c : Collapse) (dc : List (String × Collaps
   have hparent : bodyOk (frozenByDerivs (rebuildBody o.body c) o.derivs) false = true := by
     unfold frozenByDerivs
     split
-    · rename_i s k w hm
+    · rename_i s k w hsm
+      have hm := (sharedMask_some hsm).1
       refine maskFlag_ok s k w _ hb0 hm ?_
       intro hr
       have : w = false := by
@@ -665,14 +681,15 @@ theorem setstate_wf (o r : ObjDump) (c : Collapse) (dc : List (String × Collaps
       simp [this]
     · exact hb0
   have hPshape : (frozenByDerivs (rebuildBody o.body c) o.derivs).shape = o.body.shape
-      ∧ (∀ s k w, (frozenByDerivs (rebuildBody o.body c) o.derivs).mask = .array s k w →
+      ∧ (∀ s k w, sharedMask (frozenByDerivs (rebuildBody o.body c) o.derivs).mask = some (s, k, w) →
       s = o.body.shape ∧ k = true ∧ (∀ d ∈ o.derivs, d.2.body.readonly = true → w = false)) := by
     unfold frozenByDerivs
     split
-    · rename_i s k w hm
+    · rename_i s k w hsm
+      obtain ⟨hm, hne⟩ := sharedMask_some hsm
       refine ⟨rfl, ?_⟩
       intro s' k' w' he
-      simp only [MaskD.array.injEq] at he
+      simp only [sharedMask, hne, Bool.false_eq_true, ↓reduceIte, Option.some.injEq, Prod.mk.injEq] at he
       obtain ⟨rfl, rfl, rfl⟩ := he
       have hm3 : maskOk (rebuildBody o.body c).mask (rebuildBody o.body c).shape = true := by
         have := hb0
@@ -684,10 +701,11 @@ theorem setstate_wf (o r : ObjDump) (c : Collapse) (dc : List (String × Collaps
       intro d hd hr
       have : o.derivs.any (fun d => d.2.body.readonly) = true := List.any_eq_true.2 ⟨d, hd, hr⟩
       simp [this]
-    · rename_i hne
+    · rename_i hnone
       refine ⟨rfl, ?_⟩
       intro s k w he
-      exact absurd he (hne s k w)
+      rw [hnone] at he
+      cases he
   generalize frozenByDerivs (rebuildBody o.body c) o.derivs = P at h hparent hPshape
   apply insertDerivs_ok_wf _ (bare P) true r (bare_wf _ hparent) ?_ h
   intro kd hkd
